@@ -109,7 +109,9 @@ func (u *Unit) eval(st *State, e ast.Expr) Value {
 		obj := info.ObjectOf(x.Sel)
 		switch o := obj.(type) {
 		case *types.Var:
-			return u.load(st, u.varLV(st, o))
+			v := u.load(st, u.varLV(st, o))
+			u.sentinelFacts(st, o, v)
+			return v
 		case *types.Const:
 			if v, ok := u.constValue(o.Val(), o.Type()); ok {
 				return v
@@ -201,6 +203,25 @@ func (u *Unit) closureValue(st *State, lit *ast.FuncLit) Value {
 	t := u.d.Const(fmt.Sprintf("closure_%s_%d_%d", u.name, len(u.frames), ord), SInt)
 	u.closures[t.S] = &closure{lit: lit, info: fr.info, pkg: fr.pkg, fr: fr}
 	return scalar(fr.info.TypeOf(lit), t)
+}
+
+// sentinelFacts: error-typed package variables of library packages (io.EOF, ...) are
+// non-nil and pairwise distinct.
+func (u *Unit) sentinelFacts(st *State, o *types.Var, v Value) {
+	if o.Pkg() == nil || !isErrorType(o.Type()) {
+		return
+	}
+	if _, repo := u.eng.allRepoPkgs()[o.Pkg().Path()]; repo {
+		return
+	}
+	st.assume(Ne(v.term(), IntLit(0)))
+	for name, t := range u.sentinels {
+		if name != globalKey(o) {
+			st.assume(Ne(v.term(), t))
+		}
+	}
+	u.sentinels[globalKey(o)] = v.term()
+	u.assumptions["library error sentinels (io.EOF, ...) are non-nil and pairwise distinct"] = true
 }
 
 // varLV returns the lvalue of a variable (local, boxed, or package-level).
